@@ -1884,7 +1884,7 @@ func (a *align) SubAlign(start, length int) (subalign Alignment, err error) {
 // (0-based inclusive coordinates).
 func (a *align) SelectSites(sites []int) (subalign Alignment, err error) {
 	for _, site := range sites {
-		if site < 0 || site > a.Length() {
+		if site < 0 || site >= a.Length() {
 			err = fmt.Errorf("site is outside the alignment")
 			return
 		}
